@@ -144,6 +144,12 @@ def _checkout_file(
                 prompt=prompt,
             )
     else:
+        # NOTE: the workspace scan has not seen anything at this path, which
+        # does not mean that nothing is there (it may sit below a symlinked
+        # directory, or have appeared since): whatever it is, it is not known
+        # to be in the cache
+        if fs.isfile(path):
+            _remove(path, fs, False, force=force, prompt=prompt)
         link(cache, cache_path, fs, path)
         modified = True
     return modified
